@@ -69,10 +69,14 @@ def with_fields_set(cls: Cls) -> Cls:
 
     def new_setattr(self, attr, value):
         try:
-            self.__dict__[FIELDS_SET_ATTR].add(attr)
+            fields_set_ = self.__dict__[FIELDS_SET_ATTR]
         except KeyError:
             raise RuntimeError(dataclass_before_error) from None
         old_setattr(self, attr, value)  # type: ignore
+        # only an assignment that succeeded sets the field (a frozen class refuses it),
+        # and typing's bookkeeping on instances of a generic alias is not a field
+        if attr != "__orig_class__":
+            fields_set_.add(attr)
 
     for attr, old, new in [
         ("__new__", old_new, new_new),
